@@ -1421,6 +1421,10 @@ func Hydro(horizon int, g *GlobalVarsMain, local *InputSharedVars, hPath *HFileP
 	g.FELDW[horizonIndex] = local.FK[horizonIndex] + KRR/100
 	g.NORMFK[horizonIndex] = local.FK[horizonIndex]
 	g.PRGES[horizonIndex] = g.PRGES[horizonIndex] + KRG/100
+	if g.FELDW[horizonIndex] > g.PRGES[horizonIndex] {
+		// field capacity including the supplements cannot exceed the total pore volume
+		g.FELDW[horizonIndex] = g.PRGES[horizonIndex]
+	}
 
 	if g.IZM/g.DZ.Index > g.N {
 		g.IZM = g.N * g.DZ.Index
